@@ -221,6 +221,8 @@ pub fn malformations(r: &mut Rng, fam: Fam, host: &Frame, out: &mut Vec<Malforme
     for i in host.positions(|s| matches!(s.role, Role::Str("topic") | Role::Str("will_topic"))) {
         let bad = *r.pick(BAD_TOPICS);
         push("topic-name-wildcard", edit(i, lp(bad)), RefErr::TopicName(bad.to_vec()), Lenient::Same);
+        let long = gen::long_invalid_filter(r);
+        push("topic-name-wildcard", edit(i, lp(&long)), RefErr::TopicName(long.clone()), Lenient::Same);
     }
     for i in host.positions(|s| matches!(s.role, Role::Prop { id: 0x08, .. })) {
         let bad = *r.pick(BAD_TOPICS);
@@ -233,6 +235,8 @@ pub fn malformations(r: &mut Rng, fam: Fam, host: &Frame, out: &mut Vec<Malforme
         for bad in BAD_FILTERS {
             push("invalid-filter", edit(i, lp(bad)), RefErr::TopicFilter(bad.to_vec()), Lenient::Same);
         }
+        let long = gen::long_invalid_filter(r);
+        push("invalid-filter", edit(i, lp(&long)), RefErr::TopicFilter(long.clone()), Lenient::Same);
         break;
     }
     // --- protocol name / level
